@@ -134,9 +134,11 @@ def _make_cell(vm, s, f, ins):
 def _copy_free_vars(vm, s, f, ins):
     n = ins.arg
     base = f.ci.nlocalsplus - n
-    clo = f.func.closure
     if type(f.func) is Union:
-        raise Unsupported("closure of merged functions")
+        for i in range(n):
+            f.locals[base + i] = mk_union([(g, vf.closure[i]) for g, vf in f.func.alts])
+        return None
+    clo = f.func.closure
     for i in range(n):
         f.locals[base + i] = clo[i]
 
@@ -174,7 +176,7 @@ def _store_deref(vm, s, f, ins):
 @op("LOAD_GLOBAL")
 def _load_global(vm, s, f, ins):
     name = ins.argval
-    g = f.func.globals
+    g = f.func.alts[0][1].globals if type(f.func) is Union else f.func.globals
     if name in g:
         v = g[name]
     else:
@@ -1153,6 +1155,12 @@ def _load_attr(vm, s, f, ins):
             s2.frames[-1].stack.append(alt)
             return _load_attr(vm, s2, s2.frames[-1], ins)
         return vm.fork_union(s, obj, k)
+    if vm.sched is not None and type(obj) is VInst:
+        if (obj.cls.__name__, name) in vm.sched.racy:
+            f.stack.append(obj)  # (restored anyway if we park)
+            vm.sched.visible(vm, s, ("field", name))
+            f.stack.pop()
+        vm.note_access(s, obj, name, False)
     try:
         kind, v = load_attr_atomic(vm, s, obj, name)
     except _NeedCall as nc:
@@ -1184,6 +1192,8 @@ def _store_attr(vm, s, f, ins):
     name = ins.argval
     if type(obj) is Union:
         obj = vm.project(s, obj)
+    if vm.sched is not None and type(obj) is VInst and (obj.cls.__name__, name) in vm.sched.racy:
+        vm.sched.visible(vm, s, ("field", name))
     for g, x in alts_of(obj):
         gg = AND(s.guard, g)
         if gg is FALSE:
@@ -1316,7 +1326,8 @@ def _make_function(vm, s, f, ins):
     defaults = ()
     if flags & 1:
         defaults = f.stack.pop()
-    vf = VFunc(code, f.func.globals, defaults, kwdefaults, closure)
+    vf = VFunc(code, f.func.alts[0][1].globals if type(f.func) is Union else f.func.globals, defaults, kwdefaults,
+               closure)
     vf.birth = s.guard
     f.stack.append(vf)
 
